@@ -783,7 +783,7 @@ def check_c18(prop, tier, seed, scale=1.0):
         "evaluations": tot["runs"],
         "distinct_nontrivial": len(tot["nontrivial"]),
         "rule": "one case = one balanced periodic refill/consume pattern (period <=16 rounds, message sizes 1..20000, leftover 0..~21000, initial capacity 0..64 KiB, "
-                "consumption by split_to/advance/truncate/copy_to_bytes with or without freeze, round trips through Bytes, unsplit of a split-off tail, retention window 0..5) run for "
+                "consumption by split_to/split/split_off(0)/advance/truncate/copy_to_bytes with or without freeze, round trips through Bytes, unsplit of a split-off tail, retention window 0..5) run for "
                 "warm-up N (adaptive) + 100*N rounds, at most %d; distinct = distinct pattern hash; non-trivial = every pattern (each runs thousands of rounds)" % limit,
         "samples": tot["samples"][:2] or [{"note": "no sample recorded"}],
         "steps": tot["steps"],
